@@ -66,3 +66,9 @@ prop("C06",
      level_text="run_one_step of the elimination algorithms is executed symbolically with the phases called by contract (the transitions proved for their real bodies); per step: idempotence after completion, S shrinks, P grows, S/P disjoint, U inside P, round+1, completion flag, phase order, samples only while candidates remain; evaluating() accounting and the discrete optimisers' exception-freedom are separate obligations.",
      mode=_SET, trusted_base=_SET_TB,
      not_decided=["exception-freedom inside cvxpy / gpytorch / botorch calls", "termination"])
+
+prop("C16",
+     level_text="add_sample / update / predict / clear_data of EmpiricalMeanVarModel are executed symbolically: per-design stores after add_sample (order preserved, repeated indices), means/variances formulas in update (all tracking combinations), row selection in predict, the rejections, and end-to-end histories whose prediction is proved equal to an order-free expression of all rows added for the design.",
+     mode="unrolled: design counts 2-3, objective counts 2-3, held sample counts 0-3 and index patterns enumerated; every sample value symbolic (unbounded)",
+     trusted_base=["z3 5.1.0", "numpy.mean / numpy.var(ddof=0) definitions"],
+     not_decided=["unbounded numbers of designs / samples (structure is enumerated, values are not)", "predict between add_sample and update (reading: prediction as of the last update)"])
